@@ -133,6 +133,10 @@ def scales_contract(led):
         calls = [c for c in ast.walk(fn) if isinstance(c, ast.Call) and getattr(c.func, "id", "") == "get_mocoeff_scales"]
         conv_targets = [ast.get_source_segment(text, c.args[1]) for c in ast.walk(fn) if isinstance(c, ast.Call) and getattr(c.func, "id", "") == "convert_conventions" and len(c.args) >= 2]
         ok, detail = False, "no call of get_mocoeff_scales found"
+        if not (len(calls) == 1 and isinstance(calls[0].args[0], ast.Name)):
+            # the writer no longer has the shape this obligation reads (e.g. the code moved into a helper): undecided
+            led.record(f"scales@{fmt}.dump_one::normalization-constants-are-computed-in-the-conventions-of-the-rows-they-scale", "post", "unknown", "ast", 0.0, detail="dump_one has no single call get_mocoeff_scales(<name>): re-annotation needed")
+            continue
         if len(calls) == 1 and isinstance(calls[0].args[0], ast.Name):
             bname = calls[0].args[0].id
             assigns = [s for s in ast.walk(fn) if isinstance(s, ast.Assign) and any(isinstance(t, ast.Name) and t.id == bname for t in s.targets)]
